@@ -726,7 +726,7 @@ fn main() {
      (falsified-condition vector, method, kid form, override, scope, issuer form, status form x mode, holder mode, fail-fast)",
   );
   let mut rng = args.rng(2);
-  let n = (if args.thorough { 2_400_000u64 } else { 8_000 } * scale / 1000 / args.nshards).max(60);
+  let n = (if args.thorough { 12_000_000u64 } else { 8_000 } * scale / 1000 / args.nshards).max(60);
   for i in 0..n {
     let mut p = Plan::all_good(&mut rng);
     match i % 8 {
